@@ -645,3 +645,46 @@ def gen_c12(r, knobs=None):
             b.op(op='insp', cid=cid, kind='log')
             b.op(op='insp', cid=cid, kind='has_data')
     return b.scenario()
+
+
+def gen_c20(r, knobs=None):
+    """name-mode store partially computed -> dry migration -> migration -> second migration -> parameter-mode chain on
+    the target; listings of source and target between the steps."""
+    kn = {'kinds': PERSISTED_KINDS + ['mem'], 'n_roots': (1, 2), 'n_pipes': (1, 4), 'p_override': 0.0, 'p_twin': 0.0}
+    kn.update(knobs or {})
+    world = gen.gen_world(r, kn)
+    b = B(world, r)
+    root = r.randrange(len(world['roots']))
+    rd = {'form': 'yaml' if world.get('no_json') else r.choice(['json', 'yaml']), 'file_tag': r.choice(['t0', 'deep/dir']), 'perm': r.choice([0, 3, 8])}
+    if r.random() < 0.3:
+        rd['tasks_form'] = 'wildcard'
+    if r.random() < 0.3:
+        rd['global_vars'] = {'VA': 'alpha', 'VB': 'beta'}
+    b.proc(hs=r.choice([0, 1]))
+    c0 = b.build(root, rd, pmode=False, store='src')
+    names = b.names(c0)
+    for n in r.sample(names, r.randint(0, len(names))):
+        b.req(c0, n)
+    b.op(op='ls', store='src')
+    plan = r.choice([['dry', 'real', 'real'], ['real', 'real'], ['dry', 'dry', 'real'], ['real', 'dry', 'real'], ['dry', 'real']])
+    first_real_done = False
+    for step in plan:
+        b.proc(hs=r.choice([0, 1, 2]))
+        b.op(op='migrate', root=root, render=rd, store='src', target='tgt', dry=(step == 'dry'), verbose=r.random() < 0.5)
+        b.op(op='ls', store='src', expect='unchanged', what='source')
+        if step == 'dry' and not first_real_done:
+            b.op(op='ls', store='tgt', expect='no_files')
+        elif first_real_done:
+            b.op(op='ls', store='tgt', expect='unchanged', what='target')
+        else:
+            b.op(op='ls', store='tgt')
+            first_real_done = True
+    b.proc(hs=r.choice([0, 1, 2]))
+    c1 = b.build(root, rd, pmode=True, store='tgt')
+    b.op(op='insp', cid=c1, kind='has_data')
+    order = list(b.names(c1))
+    r.shuffle(order)
+    for n in order:
+        b.req(c1, n)
+    b.op(op='ls', store='src', expect='unchanged', what='source')
+    return b.scenario()
